@@ -88,7 +88,7 @@ fn main() {
     // 2. lock-step correspondence
     if let Some(mp) = &opts.model {
         let mut model = Model::spawn(mp);
-        let n = opts.tier.pick(220u64, 4000);
+        let n = opts.tier.pick(1500u64, 30000);
         for i in 0..n {
             let mut r = Rng::for_case(opts.seed ^ 0x10C5, i);
             match lockstep::run_case(&mut r, &b, &mut model, &mut ev, i) {
@@ -108,8 +108,8 @@ fn main() {
     }
 
     // 3. generated programs under the simulator
-    let n = opts.tier.pick(150u64, 3000);
-    let schedules = opts.tier.pick(3usize, 12);
+    let n = opts.tier.pick(700u64, 8000);
+    let schedules = opts.tier.pick(4usize, 16);
     for i in 0..n {
         let mut r = Rng::for_case(opts.seed ^ 0x51A1, i);
         let prog = progs::generate(&mut r);
